@@ -177,7 +177,7 @@ func ruleCode93Checksum(c *Ctx) {
 	// the value of the character: encodeTable[r].value
 	var valV ssa.Value
 	eachInstr(fn, func(b *ssa.BasicBlock, ins ssa.Instruction) {
-		if ld, ok := ins.(*ssa.UnOp); ok && hdr.Dominates(b) && hdr.Succs[0].Dominates(b) {
+		if ld, ok := ins.(*ssa.UnOp); ok && hdr.Dominates(b) && inLoopBody(hdr, b) {
 			if fa, ok := ld.X.(*ssa.FieldAddr); ok {
 				if _, f := storeBase(fa); f == "value" && valV == nil {
 					valV = ld
@@ -206,7 +206,7 @@ func ruleCode93Checksum(c *Ctx) {
 		hc := loopSite.Path[0].(*ssa.Call)
 		var post []*ssa.Return
 		for _, ret := range returnsOf(fn) {
-			if !hdr.Succs[0].Dominates(ret.Block()) { // returns from inside the loop: character not encodable
+			if !inLoopBody(hdr, ret.Block()) { // returns from inside the loop: character not encodable
 				post = append(post, ret)
 			}
 		}
